@@ -21,7 +21,7 @@ func init() {
 			"C06.3 in Refresh, DeleteAllocation(request tuple) runs exactly on the lifetime==0 edge and a.Refresh(lifetime) exactly on the other; " +
 			"C06.4 the expiry closure of the allocation timer calls m.DeleteAllocation(alloc.fiveTuple) for the allocation that owns the timer; " +
 			"C06.5 DeleteAllocation deletes the map entry and, on the found path, calls Close, whose release coverage is C15.2; " +
-			"C06.5r (=C15.2) Close releases every timer, socket and collection element of the allocation; C06.7 (=C15.7) a failed create leaves no armed timer behind (the expiry deletes by 5-tuple and would hit a later allocation), and the allocation is published before its created-callback runs; " +
+			"C06.5r (=C15.2) Close releases every timer, socket and collection element of the allocation; C06.7 (=C15.7) a failed create leaves no armed timer behind (the expiry deletes by 5-tuple and would hit a later allocation), and the allocation is published before its created-callback runs; C06.8 a relay loop whose socket read fails ends its allocation at once — it never reads again, so a removed allocation's loop cannot end a later allocation of the same 5-tuple; " +
 			"C06.6 the only sources of the duration arming an allocation timer are ServerConfig.AllocationLifetime, the 10-minute default that replaces a zero value, and the decoded request LIFETIME.",
 		NotCovered: "wall-clock exactness ('exactly', 'no longer'), behaviour of time.Timer, races between expiry and refresh.",
 		Run:        runC06,
@@ -279,6 +279,7 @@ func runC06(c *Ctx) {
 	ruleDeleteAllocation(c, "C06.5")
 	ruleReleaseCoverage(c, "C06.5r")
 	ruleArmThenPublish(c, "C06.7")
+	ruleRelayLoopGivesUpAtOnce(c, "C06.8")
 
 	// ---- C06.6
 	c.Rule("C06.6", "role flow: every duration that arms or resets Allocation.lifetimeTimer originates only from ServerConfig.AllocationLifetime, a constant equal to 10 minutes (the replacement of a zero configuration), or the LIFETIME decoded from the request; API entry parameters of the manager are tolerated as test/embedding entry points", 2)
@@ -528,4 +529,67 @@ func (w *World) lifetimeSources(v ssa.Value, at ssa.Instruction, req, msg *ssa.P
 		}
 	}
 	return bad, nDec, nDef
+}
+
+// ruleRelayLoopGivesUpAtOnce (C06.8). The relay goroutine of an allocation ends the allocation
+// by KEY (DeleteAllocation(a.fiveTuple)) when its socket fails. That is sound only if it happens
+// at once: after Close the socket fails for good, and a loop that reads again (retries, backs
+// off) is the loop of an allocation that may already be gone — when it finally deletes, it
+// deletes whichever allocation holds the 5-tuple by then, seconds into a lifetime of minutes.
+func ruleRelayLoopGivesUpAtOnce(c *Ctx, rule string) {
+	w := c.W
+	c.Rule(rule, "the relay loops give up at the first failed read: from the error edge of the relay socket's ReadFrom (packetConnHandler) / Accept (connHandler) the same read is not reachable again", 2)
+	for _, k := range []struct{ fn, method string }{{"packetConnHandler", "ReadFrom"}, {"connHandler", "Accept"}} {
+		fn := w.Func("allocation", "Allocation", k.fn)
+		c.Anchor(rule, k.fn)
+		n := 0
+		for _, body := range w.helpersOf(fn) {
+			w.eachInstr(body, func(in ssa.Instruction) {
+				call, ok := in.(*ssa.Call)
+				if !ok || !call.Call.IsInvoke() || call.Call.Method.Name() != k.method {
+					return
+				}
+				if _, f, isL := fieldLoad(call.Call.Value); !isL || !strings.HasPrefix(nm(f), "relay") {
+					return
+				}
+				n++
+				var errV ssa.Value
+				for _, r := range *call.Referrers() {
+					if ex, isE := r.(*ssa.Extract); isE && ex.Type().String() == "error" {
+						errV = ex
+					}
+				}
+				if errV == nil {
+					c.Bad(rule, fname(body), k.method, w.instrPos(in), "the read's error result is not examined")
+					return
+				}
+				bad := ""
+				for _, b := range body.Blocks {
+					onErr := false
+					for f := range w.facts(body).in[b] {
+						if v, isNil, ok := nilFact(f); ok && !isNil && v == errV {
+							onErr = true
+						}
+					}
+					if !onErr || len(b.Instrs) == 0 {
+						continue
+					}
+					if b == call.Block() || instrReaches(b.Instrs[0], call) {
+						bad = w.pos(b.Instrs[0].Pos())
+						if bad == "-" || bad == "" {
+							bad = "block " + fmt.Sprint(b.Index)
+						}
+					}
+				}
+				if bad == "" {
+					c.OK(rule, fname(body), k.method, w.instrPos(in), "the error edge leads to the teardown without reading again")
+				} else {
+					c.Bad(rule, fname(body), k.method, w.instrPos(in), "after a failed "+k.method+" the loop can read again (error edge at "+bad+"): the loop of an allocation that has been removed keeps running and later ends, by key, whichever allocation holds its 5-tuple then — an allocation granted minutes is gone within the retry delay")
+				}
+			})
+		}
+		if n == 0 {
+			c.Bad(rule, fname(fn), k.method, w.pos(fn.Pos()), "no "+k.method+" on the relay socket found: anchor gone")
+		}
+	}
 }
